@@ -511,8 +511,13 @@ def run_check(prop, title, families, tier, meta):
         "wall_s": round(wall, 2),
         "violations": len(violations),
     }
-    os.makedirs(os.path.join(VERIF, "evidence"), exist_ok=True)
-    json.dump(evidence, open(os.path.join(VERIF, "evidence", "%s.json" % prop), "w"), indent=1, default=str)
+    # evidence/ describes runs against /repo itself; runs against another source tree (seeded changes,
+    # self-tests via $VERIF_REPO_SRC) write theirs to a scratch directory instead
+    evdir = os.path.join(VERIF, "evidence") if os.path.realpath(REPO_SRC) == "/repo/src" else \
+        os.path.join(VERIF, ".tmp", "evidence-other-tree")
+    os.makedirs(evdir, exist_ok=True)
+    evidence["coverage"]["source_tree"] = REPO_SRC
+    json.dump(evidence, open(os.path.join(evdir, "%s.json" % prop), "w"), indent=1, default=str)
     print("%s %s: tasks=%d paths=%d obligations=%d discharged=%d sat=%d inconclusive=%d unknown=%d solver=%.1fs wall=%.1fs"
           % (prop, tier, len(tasks), total.paths, total.obligations, total.discharged, total.sat, total.inconclusive,
              total.unknown, total.solver_s, wall))
